@@ -26,22 +26,33 @@ inductive Prog where
   /-- the operation returned; `failed`: it returned an error -/
   | ret (failed : Bool)
   | sys (r : Req) (k : Rsp → Prog)
+  /-- a read-only question to the file system (lstat / readdir): not a recorded call, cannot be made to fail -/
+  | probeDir (p : Path) (k : Bool → Prog)
+  | probeExists (p : Path) (k : Bool → Prog)
 
 structure Choice where
   fail : Option Errno
-  name : String
+  /-- the random part of a temp name -/
+  rnd : String
   fd : Nat
 
-/-- The concrete call a request becomes under a choice, and the answer a successful execution gives. -/
+/-- The concrete call a request becomes under a choice, and the answer a successful execution gives.
+    Temp names are `<prefix>#<random>` (the canonical form the harness gives the random digits). -/
 def concretize (r : Req) (c : Choice) : Call × Rsp :=
   match r with
-  | .createTemp dir _ => (.openC (dir ++ [c.name]) true true false 0o600 (some c.fd), .created (dir ++ [c.name]) c.fd)
-  | .mkdirTemp dir _ => (.mkdir (dir ++ [c.name]) 0o700, .created (dir ++ [c.name]) 0)
+  | .createTemp dir pfx =>
+    let p := dir ++ [pfx ++ "#" ++ c.rnd]
+    (.openC p true true false 0o600 (some c.fd), .created p c.fd)
+  | .mkdirTemp dir pfx =>
+    let p := dir ++ [pfx ++ "#" ++ c.rnd]
+    (.mkdir p 0o700, .created p 0)
   | .call k => (k, .ok)
 
 /-- The successful calls of a run, in order (a failed call changes nothing and is not listed). -/
 def runProg : Prog → FS → List Choice → List Call
   | .ret _, _, _ => []
+  | .probeDir p k, s, o => runProg (k (kindAt s p == some .dir)) s o
+  | .probeExists p k, s, o => runProg (k (lookup s.names p).isSome) s o
   | .sys _ _, _, [] => []
   | .sys r k, s, c :: cs =>
     match c.fail with
@@ -51,6 +62,35 @@ def runProg : Prog → FS → List Choice → List Call
       | (s', .ok) => (concretize r c).1 :: runProg (k (concretize r c).2) s' cs
       | (_, .err e) => runProg (k (.err e)) s cs
 
+/-- The oracle of the exhaustive exploration: the n-th call gets random part `n` and descriptor 5; `fails`
+    says which calls fail although the model would let them succeed. -/
+def rndOf (n : Nat) : String :=
+  ["1", "2", "3", "4", "5", "6", "7", "8", "9", "10", "11", "12", "13", "14", "15", "16"].getD n "x"
+
+def oracleOf (n : Nat) : List Bool → List Choice
+  | [] => []
+  | f :: fs => { fail := if f then some .EINVAL else none, rnd := rndOf n, fd := 5 } :: oracleOf (n + 1) fs
+
+/-- What a single created path must satisfy for `onlyTemp`. -/
+def okCall (dest : Path) (tmp : Path → Bool) (c : Call) : Bool := onlyTemp dest tmp [c]
+
+/-- Exhaustive exploration of a program against the model: at every system call the run may stop (crash /
+    kill), the call may fail by injection, or it is executed by the model (and may fail there). Returns true
+    iff on every such path the checker state stays `ok` and every call creates only allowed names. -/
+def checkAll (dest : Path) (old new : Obs) (tmp : Path → Bool) : Prog → Chk → Nat → Bool
+  | .ret _, k, _ => k.ok
+  | .probeDir p kont, k, n => checkAll dest old new tmp (kont (kindAt k.s p == some .dir)) k n
+  | .probeExists p kont, k, n => checkAll dest old new tmp (kont (lookup k.s.names p).isSome) k n
+  | .sys r kont, k, n =>
+    let c : Choice := { fail := none, rnd := rndOf n, fd := 5 }
+    k.ok &&
+    checkAll dest old new tmp (kont (.err .EINVAL)) k (n + 1) &&
+    (match exec k.s (concretize r c).1 with
+     | (_, .ok) =>
+       okCall dest tmp (concretize r c).1 &&
+       checkAll dest old new tmp (kont (concretize r c).2) (chkStep dest old new k (concretize r c).1) (n + 1)
+     | (_, .err e) => checkAll dest old new tmp (kont (.err e)) k (n + 1))
+
 /-! ### os helpers -/
 
 /-- os.Remove: unlink, and rmdir if that failed; the error is ignored by all callers here. -/
@@ -58,6 +98,35 @@ def removeP (p : Path) (k : Prog) : Prog :=
   .sys (.call (.unlink p)) fun r =>
     match r with
     | .err _ => .sys (.call (.rmdir p)) fun _ => k
+    | _ => k
+
+/-- os.Rename (os/file_unix.go): an lstat of the new name first — if it is a directory the call is not made
+    and the error is EEXIST. -/
+def osRenameP (src dst : Path) (k : Rsp → Prog) : Prog :=
+  .probeDir dst fun isDir =>
+    if isDir then k (.err .EEXIST)
+    else .sys (.call (.rename src dst)) k
+
+/-- os.RemoveAll of a directory that holds at most the one entry `child` (os/removeall_at.go): Remove (unlink,
+    rmdir); if that failed with something else than "not exist": unlinkat, then remove the entries found by
+    reading the directory, then rmdir. All errors are ignored by the callers here. -/
+def removeAllP (d child : Path) (k : Prog) : Prog :=
+  .sys (.call (.unlink d)) fun r =>
+    match r with
+    | .err _ =>
+      .sys (.call (.rmdir d)) fun r =>
+        match r with
+        | .err .ENOENT => k
+        | .err _ =>
+          .sys (.call (.unlink d)) fun r =>
+            match r with
+            | .err .ENOENT => k
+            | .err _ =>
+              .probeExists child fun there =>
+                if there then .sys (.call (.unlink child)) fun _ => .sys (.call (.rmdir d)) fun _ => k
+                else .sys (.call (.rmdir d)) fun _ => k
+            | _ => k
+        | _ => k
     | _ => k
 
 def tmpPrefix (dest : Path) : String := "." ++ dest.getLast?.getD ""
@@ -78,7 +147,7 @@ def tempDirP (dir : Option Path) (tmpdir dest : Path) (k : Path → Prog) : Prog
           match r2 with
           | .created dst fd2 =>
             .sys (.call (.close fd2)) fun _ =>
-            .sys (.call (.rename src dst)) fun r3 =>
+            osRenameP src dst fun r3 =>
               match r3 with
               | .err _ => removeP dst (removeP src (k fallback))   -- defers run last-in first-out
               | _ => removeP dst (k tmpdir)                       -- cleanup = false: testsrc no longer exists
@@ -100,7 +169,7 @@ def closeAtomicallyReplaceP (t : Path) (fd : Nat) (dest : Path) : Prog :=
         match r with
         | .err _ => cleanupP t fd true (.ret true)
         | _ =>
-          .sys (.call (.rename t dest)) fun r =>
+          osRenameP t dest fun r =>
             match r with
             | .err _ => cleanupP t fd true (.ret true)
             | _ => .ret false                         -- t.done = true: Cleanup is a no-op
@@ -142,8 +211,14 @@ def createAtomicP (optDir : Option Path) (tmpdir dest : Path) (mode : Nat) (chun
           | _ => copy
       | _ => .ret true
 
-/-- renameio.Symlink (tempfile.go:139-171). os.RemoveAll(d) is the unlink of the (possibly already renamed)
-    link followed by the rmdir of the directory. -/
+/-- updater File.Unpack (file.go:116-156): nothing to do when the unpacked file exists; otherwise CreateAtomic
+    with the registry's tmp dir and no mode; `readFails`: the unpacker reported an error (corrupt archive). -/
+def fileUnpackP (regTmp tmpdir dest : Path) (chunks : List Seg) (readFails : Bool) : Prog :=
+  .probeExists dest fun there =>
+    if there then .ret false
+    else createAtomicP (some regTmp) tmpdir dest 0 chunks readFails
+
+/-- renameio.Symlink (tempfile.go:139-171). -/
 def symlinkP (target : String) (dest : Path) : Prog :=
   .sys (.call (.symlink target dest)) fun r =>
     match r with
@@ -152,17 +227,61 @@ def symlinkP (target : String) (dest : Path) : Prog :=
         match r with
         | .created d _ =>
           let link := d ++ ["tmp.symlink"]
-          let removeAll (k : Prog) : Prog := removeP link (.sys (.call (.rmdir d)) fun _ => k)
+          let removeAll (k : Prog) : Prog := removeAllP d link k
           .sys (.call (.symlink target link)) fun r =>
             match r with
             | .err _ => removeAll (.ret true)
             | _ =>
-              .sys (.call (.rename link dest)) fun r =>
+              osRenameP link dest fun r =>
                 match r with
                 | .err _ => removeAll (.ret true)
                 | _ => removeAll (.ret false)
         | _ => .ret true
     | .err _ => .ret true
     | _ => .ret false
+
+/-! ### Acceptor: is a recorded run (calls with their results) a path of the program? -/
+
+def tempNameOk (dir : Path) (pfx : String) (p : Path) : Bool :=
+  p.dropLast == dir && (match p.getLast? with
+    | some c => (pfx ++ "#").toList.isPrefixOf c.toList
+    | none => false)
+
+/-- Match an observed call against a request; the answer is what the program is told. -/
+def matchReq (r : Req) (c : Call) (res : Res) : Option Rsp :=
+  match r, c with
+  | .createTemp dir pfx, .openC p true true false 0o600 fd =>
+    if tempNameOk dir pfx p then
+      match res, fd with
+      | .ok, some n => some (.created p n)
+      | .err e, none => some (.err e)
+      | _, _ => none
+    else none
+  | .mkdirTemp dir pfx, .mkdir p 0o700 =>
+    if tempNameOk dir pfx p then
+      match res with
+      | .ok => some (.created p 0)
+      | .err e => some (.err e)
+    else none
+  | .call c0, c =>
+    if c0 == c then
+      match res with
+      | .ok => some .ok
+      | .err e => some (.err e)
+    else none
+  | _, _ => none
+
+/-- `none`: the run is not a path of the program. `some none`: it is a proper prefix (killed run).
+    `some (some failed)`: the program returned, with or without error. -/
+def accepts : Prog → FS → List (Call × Res) → Option (Option Bool)
+  | .ret f, _, [] => some (some f)
+  | .ret _, _, _ :: _ => none
+  | .probeDir p k, s, t => accepts (k (kindAt s p == some .dir)) s t
+  | .probeExists p k, s, t => accepts (k (lookup s.names p).isSome) s t
+  | .sys _ _, _, [] => some none
+  | .sys r k, s, (c, res) :: t =>
+    match matchReq r c res with
+    | some rsp => accepts (k rsp) (step s c) t
+    | none => none
 
 end PB.FsAtomic
